@@ -150,6 +150,24 @@ CHECKS["C18"] = (
     "bounded-exhaustive input and push-order enumeration vs numpy "
     "reference model")
 
+CHECKS["C06"] = (
+    "4/C06",
+    "(A) every subset (size <= 6 thorough) of a 6-sphere alphabet (uniform, "
+    "layered, absorbing) x {Mie, MieLens, Lens(Mie)} x {grid, points}: "
+    "field(collection) = sum of member fields; (B) 7 polarization vectors "
+    "(any norm, negative, tiny components) x {Mie, Multisphere, MieLens, "
+    "Lens} x 3 scatterers: field = (a F_x + b F_y)/|(a,b)|; (C) "
+    "deviation-bounded product over channel count, the kind (scalar / dict "
+    "/ labelled array) of wavelength, polarization, index, radius, scaling "
+    "and noise, detector kind and every permutation of the label order of "
+    "every dictionary: each channel must equal the single-channel call "
+    "within 8 ulp.",
+    "Trusted: numpy/xarray label-based selection.  Channel order along the "
+    "axis is not asserted (channels are addressed by label).  Alphabet "
+    "values only.",
+    "bounded-exhaustive input/configuration enumeration with differential "
+    "(single-channel / member-wise) oracle")
+
 NOT_YET = {}
 
 
